@@ -384,8 +384,14 @@ func e1Exec(prop string) func(any, *simcheck.Ctx) *simcheck.Violation {
 				}
 			}
 		case "C04":
+			if f := s.Failure; f != nil && !cyclic && (f.Kind == simrt.FailDeadlock || f.Kind == simrt.FailBudget) {
+				// in an acyclic graph every dependency finishes, so a dependent that is never
+				// handed its outcomes (and a build that never returns the root's result) is a
+				// C04 failure as much as a termination failure
+				return simcheck.V("outcome-never-delivered", "acyclic graph: the build never returned the requested target's result: %s [%s]", f.Msg, f.Gs)
+			}
 			if s.Failure != nil || !returned {
-				return nil // termination is C05's business
+				return nil // termination with cycles is C05's business
 			}
 			if runErr != w.outcome[0] {
 				return simcheck.V("wrong-run-result", "Run returned %v but the requested target's outcome is %v", runErr, w.outcome[0])
